@@ -37,6 +37,8 @@ FILES = {
     # an include that climbs out of its folder: resolved against the real parent, also when the file is named through a link
     "case/up.dict": "#include '../b.dict'\n#include '../sub/inc'\nu \"$z + 1\";\n",
     "model.xml": "<model><item id='1'>a</item><item>b</item><sub><x>1</x><x>2</x></sub></model>",
+    # a document that binds the prefix the writer uses by default (xs) to another URI
+    "schema.xml": "<xs:schema xmlns:xs='http://www.w3.org/2001/XMLSchema'><xs:element name='e'>t</xs:element><xs:note>n</xs:note></xs:schema>",
 }
 
 
@@ -140,17 +142,22 @@ D1 = {"k": "a b", "n": {"p": [1, 2, "x y"], "q": None}, "z": 1.5}
 # dicts that carry per-document XML options (documented keys of `_xmlOpts`): the options of one document must not reach the next
 DX1 = {"_xmlOpts": {"_removeNodeNumbering": False, "_rootTag": "first"}, "a": 1, "b": {"c": "x"}}
 DX2 = {"_xmlOpts": {"_nameSpaces": {"p": "urn:one"}, "_rootTag": "second", "_rootAttributes": {"v": "1"}}, "a": 1}
+# the writer's default namespace URI bound to another prefix, and its default prefix bound to another URI
+DX3 = {"_xmlOpts": {"_nameSpaces": {"q": "https://www.w3.org/2009/XMLSchema/XMLSchema.xsd"}, "_rootTag": "third"}, "a": 1}
+DX4 = {"_xmlOpts": {"_nameSpaces": {"xs": "urn:other"}, "_rootTag": "fourth"}, "a": {"b": 2}}
 PREFIX_OPS = [("read", ("a.dict", "abs"), {}), ("read", ("a.dict", "rel"), {"order": True}), ("read", ("b.dict", "abs"), {"comments": False}),
               ("read", ("c.json", "rel"), {}), ("write", "w1", "w", D1, "abs"), ("write", "w1", "a", {"extra": "it's"}, "rel"),
               ("parse", ("b.dict", "abs"), {}), ("load", ("a.dict", "abs")), ("dump", "d1", D1), ("reset",), ("chdir", "proj/sub"), ("chdir", "elsewhere"),
               ("touch", "past"), ("touch", "future"), ("touch", "same"),
-              ("write", "x1.xml", "w", DX1, "abs"), ("write", "x2.xml", "w", DX2, "rel"), ("read", ("model.xml", "abs"), {})]
+              ("write", "x1.xml", "w", DX1, "abs"), ("write", "x2.xml", "w", DX2, "rel"), ("read", ("model.xml", "abs"), {}),
+              ("write", "x3.xml", "w", DX3, "abs"), ("write", "x4.xml", "w", DX4, "abs"), ("parse", ("schema.xml", "abs"), {"output": "xml"})]
 PROBES = [("read", ("a.dict", "abs"), {}), ("read", ("a.dict", "rel"), {"comments": False}), ("read", ("a.dict", "abs"), {"order": True}),
           ("read", ("c.json", "abs"), {}), ("write", "probe", "w", D1, "rel"), ("parse", ("a.dict", "rel"), {}), ("parse", ("a.dict", "abs"), {"order": True, "output": "json"}),
           ("load", ("a.dict", "rel")), ("dump", "pd", D1),
           ("read", ("m.dict", "abs"), {}), ("read", ("m.dict", "rel"), {"comments": False}), ("parse", ("m.dict", "abs"), {}),
           ("write", "probe.xml", "w", {"000001_a": 1, "000002_a": {"000003_b": "x y"}, "c": [1, 2]}, "rel"),
-          ("parse", ("model.xml", "abs"), {"output": "xml"}), ("read", ("model.xml", "rel"), {}),
+          ("parse", ("model.xml", "abs"), {"output": "xml"}), ("read", ("model.xml", "rel"), {}), ("parse", ("b.dict", "abs"), {"output": "xml", "comments": False}),
+          ("parse", ("schema.xml", "rel"), {"output": "xml"}),
           ("read", ("case/up.dict", "abs"), {}), ("read", ("case/up.dict", "rel"), {}),
           ("read", ("dup.dict", "abs"), {}), ("parse", ("dup.dict", "rel"), {}), ("read", ("dup2.dict", "abs"), {}), ("load", ("dup.dict", "abs"))]
 
@@ -304,9 +311,16 @@ def run(ctx: Ctx) -> None:
     for text in (FILES["a.dict"], FILES["b.dict"], "a 'x'; b 'y'; // c\n/* d */ e \"$a\";\n"):
         cases.append({"kind": "model", "text": text, "starts": [-1, 0, 41, LIMIT - 3, LIMIT - 1, LIMIT]})
     process(ctx, cases)
+    # histories of API calls against the world model (Model/Api.lean; Props/C08api.lean is about that state machine):
+    # values returned, the counter (with starts at the wrap-around) and the whole file system after the history
+    from props import api
+    api.run(ctx, 100, 2500)
 
 
 def replay(ctx: Ctx, case: dict) -> None:
+    if case.get("kind") == "api":
+        from props import api
+        api.process(ctx, [case]); return
     process(ctx, [case])
 
 
